@@ -1,1 +1,4 @@
 import MtblModel
+import MtblProofs.VarintProofs
+import MtblProofs.BlockDefs
+import MtblProofs.HeapProofs
